@@ -49,7 +49,7 @@ CHECKS = {
         assumptions=["usize is 64 bit on the analysis host"],
     ),
     "C10": dict(
-        packs=["c10", "c12_o0"], level="other",
+        packs=["c10", "c12_o0", "c09", "c11"], level="other",
         explanation="Structural necessary conditions of framebuffer read-after-write, decided on the MIR of all set_pixel impls, as_image, pixel, BUFFER_SIZE and CHECK_N: "
                     "R10.1 the writer depends on the data order iff the reader's load does (parametricity), R10.2 endianness / documented bit position pairing, "
                     "R10.3 every path of set_pixel that stores has established 0<=x<WIDTH and 0<=y<HEIGHT and every path that does not store has established the negation of one of them (writes exactly inside), the stored byte of sub-byte depths is a read-modify-write of the same byte with mask 2^bpp-1, R10.6 the byte index has the padded-row layout ImageRaw reads, "
@@ -61,7 +61,7 @@ CHECKS = {
         assumptions=["usize is 64 bit on the analysis host"],
     ),
     "C14": dict(
-        packs=["c14"], level="other",
+        packs=["c14", "c03"], level="other",
         explanation="R14.1 table check over every MonoFont constant as evaluated by rustc's const evaluator (atlas size, character size, data length, glyph count of the expanded NUL-marker mapping and replacement index versus the number of cells, unique characters): decides the clause 'each mapped character has its own index whose cell lies completely inside the font image' for every built-in font. "
                     "R14.2 decoration pairing and width, R14.3 colour roles of the three MonoFontDrawTarget flavours and their construction in draw_string, R14.4 the two decoders of the mapping grammar and index(), R14.5 glyph() cell arithmetic and guards, who-may-call SubImage::new_unchecked. R14.2 also: the effective_color table, and every successful path of draw_string / draw_whitespace that advanced has called draw_decorations with exactly its advance and position (must-pass-through).",
         claim="Decides the built-in font/mapping table clause for all fonts and the structural wiring of glyph lookup, colour roles and decorations; not the per-character advance arithmetic nor the bitmap contents.",
@@ -71,7 +71,7 @@ CHECKS = {
         assumptions=[],
     ),
     "C02": dict(
-        packs=["c02"], level="other",
+        packs=["c02", "c16", "degree_c16"], level="other",
         explanation="R02.1 the text box height covers the glyph cell and the underline on every path of measure_string (with the table obligation over all built-in fonts where the code relies on it), R02.2 decoration/baseline table over every MonoFont constant, "
                     "R02.3 the six closed shapes grow their box by exactly stroke_area's growth, R02.4 min/max pairing of the text union and same (line, position) pairs for measuring and drawing, R02.5 the thick-segment box spans exactly the end points of the rasterised edges, R02.6 axis consistency (no definite x-quantity meets a y-quantity in sums, min/max or Point/Size components) in the styled/text/image code, R02.7 the triangle's hole test is existential over the joins of all three corners, each against its opposite edge. R02.5 also fixes which corners edges() joins (each edge line on its own side, between start_join.second_edge_start and end_join.first_edge_end); R02.8 a path of measure_string whose box leaves the underline rows out has established that no underline can be drawn (underline_color None, or TextColor with no text colour).",
         claim="Decides the font-table clauses for all built-in fonts and the structural wiring of styled/text/thick-segment boxes; pixel-exact containment for lines, triangles and polylines (join arithmetic) is not decided.",
@@ -91,7 +91,7 @@ CHECKS = {
         assumptions=[],
     ),
     "C03": dict(
-        packs=["c03"], level="other",
+        packs=["c03", "c16", "degree_c16"], level="other",
         explanation="Wiring rules over the MIR of the four adapters, their constructors, the pixel-translating iterator and the three DrawTarget default methods: R03.1 every geometric argument reaching Clipped's parent is sanitised (filter by clip_area.contains, intersection, or equality with its intersection; the re-cut path builds Cropped::new(colors, area.size, intersection.translate(-area.top_left))), "
                     "R03.2 single constructors that confine the area once, R03.3 one shift with opposite sign for the reported box, R03.4 colours only through Into, R03.5 pass-through of Cropped, R03.6 trait defaults keep their geometry and every fill_contiguous in the library pairs the caller's colour stream with the caller's area. R03.7 axis consistency of the iterator / draw-target code (colours to skip are counted in rows of the area width).",
         claim="Decides the structural exactness of adapters and defaults (what is forwarded, shifted, clipped, converted); the skip arithmetic of the cropping colour iterator and deep nestings are not decided.",
@@ -111,7 +111,7 @@ CHECKS = {
         assumptions=[],
     ),
     "C07": dict(
-        packs=["c07", "degree_c07"], level="other",
+        packs=["c07", "degree_c07", "c15", "x_images"], level="other",
         explanation="R07.1 per-field effect summaries of the 12 Transform impls from MIR def-use (with mutation through &mut tracked): translate and translate_mut shift exactly the same fields, those are the position-carrying fields of the confirmed anchor table, every other field is copied unchanged, translate_mut returns self. "
                     "R07.3 the polyline consumers apply the extra Polyline::translate offset. R07.2 translation-degree abstract interpretation (positions degree 1, sizes/differences 0, doubled centres 2) of 36 query functions of the primitives (center, center_2x, bounding_box, contains, offset, styled_bounding_box, …) with callees inlined: no truncating division, |.|, variable scaling or mixed-degree comparison touches a position-dependent value and results have the degree of their role, hence these queries commute with translation for all inputs.",
         claim="Decides 'translate_mut has the same effect as translate', that exactly the anchors move, and translation-equivariance of bounding boxes / contains / centres of the listed primitives (and of the whole Rectangle API in C16); equivariance of rasterisation through the thick-join arithmetic and triangle area products is outside the domain (listed exclusions).",
@@ -131,7 +131,7 @@ CHECKS = {
         assumptions=[],
     ),
     "C06": dict(
-        packs=["c06"], level="other",
+        packs=["c06", "c05", "c16"], level="other",
         explanation="R06.1 complete inside/outside split tables over StrokeAlignment (outside + inside = width, larger half inside), R06.2 fill_area/stroke_area offsets (solid: -inside / +outside, non-solid fill: 0) and Styled forwards, "
                     "R06.3 segment/colour pairing: draw path (draw_stroke, draw_stroke_and_fill) and pixel path (three StyledPixelsIterator::next) assign the same colour role to the same scanline segment, segment accessors span the documented ranges, "
                     "R06.4 both renderers of rectangle/circle/ellipse/rounded rectangle take their areas from style.stroke_area/fill_area of the unmodified primitive (call sites followed through helpers introduced by an edit), R06.5 axis consistency of the stroke/fill area code, R06.6 a row of the rounded rectangle's fill area in which the column search finds nothing carries no fill range. and a non-empty fill range starts at a column found by searching the stroke scanline with fill_area.contains().",
@@ -142,7 +142,7 @@ CHECKS = {
         assumptions=[],
     ),
     "C01": dict(
-        packs=["c01"], level="other",
+        packs=["c01", "c03", "c05"], level="other",
         explanation="Renderer-agreement rules over MIR: R01.1 segment/colour pairing of the draw path and the three pixel paths, triangle colour-by-type tables in new/next/draw_styled; R01.2 both renderers of all nine primitives are fed the same geometry by role (areas of the unmodified primitive, identical ScanlineIterator arguments, draw = draw_iter(pixels iterator) for line/arc/sector, polyline translate handling); "
                     "R01.3/R03.6 the trait defaults and every native fill_contiguous pair the caller's colour stream with the caller's area; R14.3 font target colour roles equal between fill_contiguous and fill_solid; R01.4 scanline -> 1px rectangle; R01.5 image draw wiring.",
         claim="Decides that the alternative drawing paths are wired to the same generators, geometry inputs and colour roles; pixel-map equality itself (scanline/rectangle arithmetic, thin corners, collapsed fills) is not decided.",
@@ -152,7 +152,7 @@ CHECKS = {
         assumptions=[],
     ),
     "C09": dict(
-        packs=["c09"], level="other",
+        packs=["c09", "c11"], level="other",
         explanation="R09.1 every SubImage area is confined (single confining constructor, who-may-call new_unchecked, unconditional forwards that compose for nesting), R09.2 ImageRaw::new accepts exactly bytes_per_row*height with padded rows, data_width table, new_const, "
                     "R09.3 pixel()/draw_sub_image guard sets on path summaries (lookup/draw exactly when inside) and the index/skip forms, R09.4 colour count of ContiguousPixels by a potential function: remaining_x + remaining_y*width drops by exactly 1 on every pulling path of next(), stops only at 0, and new() must initialise it to width*height. R09.5 axis consistency of the image code (index = row * width + column).",
         claim="Decides length acceptance, guard placement, index/skip forms and the exact colour count of the stream (for an underlying iterator that does not run dry); colour order inside a row is inherited from C11's iterator rules.",
@@ -172,7 +172,7 @@ CHECKS = {
         assumptions=[],
     ),
     "C12": dict(
-        packs=["c12"], level="proof",
+        packs=["c12", "c11", "c10"], level="proof",
         explanation="Bit-provenance abstract interpretation (each result bit is 0, 1, a copy of one input bit, or unknown) of new / channel accessors / From<Raw> / Into<Raw> / into_storage / to_be_bytes / to_le_bytes for all 14 colour types, callees inlined from their MIR. "
                     "Obligations per type: O1 raw->colour->raw only clears unused bits, O2 colour->raw->colour is the identity on every value a constructor can produce (class invariant computed from the constructors), O3 the raw value fits BITS_PER_PIXEL and every constructor (incl. From<Raw>) clears the bits above the channels, "
                     "O4 new keeps each channel modulo its width in disjoint contiguous fields and the accessors return it, O5 documented Rgb/Bgr bit order, O6 storage and both byte serialisations expose the same bit vector. The domain is exact for this shift/mask/cast code, so the verdict covers all values; an unknown bit leaves the obligation undischarged.",
@@ -183,7 +183,7 @@ CHECKS = {
         assumptions=[],
     ),
     "C08": dict(
-        packs=["c08"], level="other",
+        packs=["c08", "x_scanline"], level="other",
         explanation="R08.1 (exact) no allocator in the program: the crate graphs of both library crates in every analysed feature configuration contain neither alloc nor std and no type/callee path lives there. R08.2 every explicit panic entry point reachable from non-test, non-mock library code is in an audited table with its reason; the six unreachable!() of the font adapter are proved unreachable on the monomorphic instance closure of text drawing. "
                     "R08.5 the zero-extent guards at the two anchored sites by dominance. R08.3/R08.4 interval abstract interpretation of every library body under display-scale input contracts, with private field ranges inferred from all write sites and the parameter ranges of crate-private functions inferred from all their call sites: every overflow/zero-divisor/bounds assert must be proved dead, be a recorded finding, or be counted in the reviewed outside-the-claim baseline.",
         claim="Decides the allocation clause exactly and the explicit-panic discipline; arithmetic overflow is decided only inside the kernel table under the stated contracts; termination of iterators is not decided.",
@@ -203,7 +203,7 @@ CHECKS = {
         assumptions=[],
     ),
     "C05": dict(
-        packs=["c05"], level="other",
+        packs=["c05", "c18", "c16"], level="other",
         explanation="Predicate agreement between contains() and the search behind points(): R05.1 circle (same strict squared-distance comparison against the same circle's center_2x/threshold), ellipse (both through EllipseContains::new(size).contains(2p - center_2x)), sector (circle test and PlaneSector::new(angle_start, angle_sweep) on 2p - center_2x, scanning the whole circle's distance iterator; Sector::center_2x agrees with Circle::center_2x), "
                     "R05.2 rounded rectangle: the quadrant/row-guard table of RoundedRectangleContains::contains equals the one of the row search (with find/rfind per side) and only the fall-through accepts without consulting a corner; R19.1 triangle canonical edges in contains() and in the scanline intersection; R05.3 rectangle iterator corners; R05.4 a row in which the search accepts no column does not end the enumeration (ellipse, rounded rectangle; the circle exempt with its reason).",
         claim="Decides that both sides evaluate the same membership predicate on the same arguments for circle, ellipse, sector, rounded rectangle and triangle edges; that the per-row searches enumerate exactly the accepted points (mirrored runs, rows without hit, order, uniqueness) is numeric and not decided.",
@@ -247,3 +247,23 @@ for _k, _v in EXTRA.items():
 for _k in ("C16", "C19"):
     if "order types" not in CHECKS[_k]["technique"]:
         CHECKS[_k]["technique"] += ", exhaustive case analysis over order types of comparison-only code"
+
+
+# rule packs of other properties that a property's behaviour depends on (DESIGN.md section 5, "Shared rule packs"):
+# they run inside this property's check as further necessary conditions, with the same keys
+DEPENDS = {
+    "C01": "Also runs the adapter / trait-default rules of C03 (the drawing paths a target offers include the adapters' fill methods and the defaults) and the membership rules of C05 (pixels() of the closed shapes is built on contains(), draw() on the scanline searches).",
+    "C02": "Also runs the Rectangle rules of C16 (styled boxes are built with Rectangle::offset / with_corners / envelope).",
+    "C03": "Also runs the Rectangle rules of C16 (clipping is Rectangle::intersection / contains / bottom_right).",
+    "C05": "Also runs the corner rules of C18 (confined radii, quadrants) and the Rectangle rules of C16 (rectangle points / contains).",
+    "C06": "Also runs the membership rules of C05 (the fill range of a styled scanline is fill_area.contains()) and the Rectangle rules of C16 (fill_area / stroke_area are Rectangle::offset).",
+    "C07": "Also runs the text layout rules of C15 (a text is positioned relative to its position on every path) and the image / polyline wiring R01.5, R01.2 (an image is drawn on target.translated(offset), a polyline adds its translate exactly once).",
+    "C08": "Also runs R01.4 (an empty scanline never reaches the width subtraction).",
+    "C09": "Also runs the raw load / iteration rules of C11 (pixel() and the colour stream read through RawDataSlice).",
+    "C10": "Also runs O0 of C12 (raw values are masked by construction: set_pixel ORs them in unmasked), the ImageRaw rules of C09 (as_image() / pixel() read through ImageRaw) and the raw load / iteration rules of C11.",
+    "C11": "Also runs O0 of C12 (raw values are masked by construction).",
+    "C12": "Also runs the raw load / store rules of C11 and the framebuffer rules of C10 (into_storage / to_bytes and the raw types are what they store).",
+    "C14": "Also runs the adapter / trait-default rules of C03 (glyphs reach the target through fill_contiguous / fill_solid of the font draw targets and the defaults).",
+}
+for _k, _v in DEPENDS.items():
+    CHECKS[_k]["explanation"] = CHECKS[_k]["explanation"].rstrip() + " " + _v
